@@ -9,9 +9,12 @@ VERIF = os.path.dirname(os.path.dirname(os.path.abspath(__file__)))
 sys.path.insert(0, VERIF)
 from h2lint import run  # noqa: E402
 
-names = set()
+names = {}
 for cfg in run.THOROUGH_CONFIGS:
     F = run.facts_for(cfg)
-    names |= set(n for n in F.fns if '{closure' not in n)
-json.dump(sorted(names), open(os.path.join(VERIF, 'h2lint', 'rules', 'known_fns.json'), 'w'), indent=0)
+    for n, f in F.fns.items():
+        if '{closure' not in n:
+            # the signature lets a renamed function be recognised (core.Facts._pair_renames); the configurations say where it exists
+            names.setdefault(n, [f.argc, f.ret, []])[2].append(cfg)
+json.dump(dict(sorted(names.items())), open(os.path.join(VERIF, 'h2lint', 'rules', 'known_fns.json'), 'w'), indent=0)
 print(len(names))
